@@ -75,6 +75,8 @@ def document_text(source, settings=None, title="TITLE", module="MODNAME", name="
     data = raw_bytes if raw_bytes is not None else source.encode("utf-8")
     with open(path, "wb") as f:
         f.write(data)
+    # every scratch file carries the same modification time (as after `cp -p`): nothing may be keyed on it
+    os.utime(path, (1_000_000_000, 1_000_000_000))
     r = Run()
     err = io.StringIO()
     logger = logging.getLogger("cminx")
@@ -92,6 +94,11 @@ def document_text(source, settings=None, title="TITLE", module="MODNAME", name="
         r.exc = e
     except Exception as e:
         r.exc = e
+        if raw_bytes is None and type(e).__name__ in ("CMakeSyntaxError", "NoViableAltException", "InputMismatchException"):
+            # soundness guard: a rejected source that our own reference lexer rejects too is a generator bug, not a finding
+            from . import ref_lexer
+            if ref_lexer.lex(source).error is not None:
+                e._verif_invalid_source = True
     finally:
         logger.removeHandler(h)
         logger.propagate = old_prop
